@@ -1,23 +1,9 @@
 (* Model/DeriveKnown.v — the exactly delimited classes of values on which the derive output is known to
-   deviate (confirmed findings F6, F7, F14; DESIGN.md section 5).  Boolean functions over schema and value;
-   the theorems of Props/C07d.v and Props/C08.v are stated on their complement, the `_refuted` lemmas
+   deviate (confirmed finding F14; F6, F7, F9, F10 are repaired; DESIGN.md section 5).  Boolean functions over schema and value;
+   the theorem C08_format is stated on its complement, the `_refuted` lemmas
    exhibit a witness inside each class. *)
 From MC Require Export DeriveLen DeriveDoc.
 Local Open Scope N_scope.
-
-Definition has_tag (f : field) : bool := match f_tag f with Some _ => true | None => false end.
-
-(* F7: under array encoding a nil field that carries a tag lies below the highest present index *)
-Definition f7_group (l : list pfield) (vs : list value) : bool :=
-  match max_index l vs None with
-  | Some i => existsb (fun pf => fld_is_nil (pf_fld pf) (pf_val vs pf) && has_tag (pf_fld pf) && (pf_idx pf <? i)) l
-  | None => false
-  end.
-
-(* F6: under map encoding the number of declared fields needs a wider head than the number of present
-   fields (with fewer than 256 fields: at least 24 declared, fewer than 24 present) *)
-Definition f6_group (l : list pfield) (vs : list value) : bool :=
-  negb (len_u64 (len l) =? len_u64 (max_fields l vs (len l))).
 
 (* F14: the macro's presence test disagrees with the documented notion of an absent optional
    (an Option hidden behind a type alias, under a codec) *)
@@ -70,13 +56,9 @@ Fixpoint known_f (group : encoding -> list pfield -> list value -> bool) (k : na
       end
   end.
 
-Definition len_group (e : encoding) (l : list pfield) (vs : list value) : bool :=
-  match e with AsArray => f7_group l vs | AsMap => f6_group l vs end.
 Definition fmt_group (_ : encoding) (l : list pfield) (vs : list value) : bool := f13_group l vs.
 
-(* the encoding of v passes through a struct / variant body in class F6 or F7 *)
-Definition known_len_derived (Sc : schema) (d : nat) (v : value) : bool := known_f len_group (S d) Sc d v.
-(* … in class F14 *)
+(* the encoding of v passes through a struct / variant body in class F14 *)
 Definition known_alias_nil (Sc : schema) (d : nat) (v : value) : bool := known_f fmt_group (S d) Sc d v.
 
 (* ---- side condition of the round trip (C09): the payload of an Option field type is not itself nullable.
